@@ -67,8 +67,8 @@ theorem stopCnt_ctx (l : List Evt) (h : ∀ e ∈ l, isCtxEvt e = true) : stopCn
   obtain ⟨l, h1, h2⟩ := cancelAllTasks_hist_ex s n
   rw [h1, stopCnt_append, stopCnt_ctx l h2]; rfl
 
-theorem KInv_init : KInv init := by
-  constructor <;> simp [init, lvl, stopCnt, bodyPc]
+theorem KInv_init (f p : Nat → Nat) : KInv (initSz f p) := by
+  constructor <;> simp [initSz, lvl, stopCnt, bodyPc]
 
 set_option linter.unusedSimpArgs false
 
@@ -103,7 +103,7 @@ theorem KInv_step (s s' : St) (a : Act) (hi : KInv s) (hs : step s a = some s') 
 
 theorem KInv_reachable (s : St) (hr : Reachable s) : KInv s := by
   induction hr with
-  | init => exact KInv_init
+  | init f p => exact KInv_init f p
   | step s s' a _ hs ih => exact KInv_step s s' a ih hs
 
 /-- `stopErr` is written only by the closer inside the once, before `stopCh` is closed -/
